@@ -80,7 +80,7 @@ theorem emplaceOwn_eq (w : World) (path fn : Str) (lines : List Str) :
     emplaceOwn w path fn lines =
       (fn, ownLines w path fn lines) ::
         (if (ownLost w path fn lines).isEmpty then []
-         else [(lostKey w path, ((ownLost w path fn lines).map (fun kb => lostLines path kb.1 kb.2)).flatten)]) := by
+         else [(lostKey w path, ((ownLost w path fn lines).map (fun kb => lostLines (Path.abspath w.cwd path) kb.1 kb.2)).flatten)]) := by
   unfold emplaceOwn ownLines ownLost lostKey
   cases h : w.read path with
   | none => simp
